@@ -69,11 +69,32 @@ func HashAny(v any) uint64 {
 //go:norace
 func HashRoot(v any) uint64 {
 	hs := hasher{}
-	return hs.value(reflect.ValueOf(v), 0)
+	rv := reflect.ValueOf(v)
+	if rv.Kind() == reflect.Pointer && !rv.IsNil() {
+		hs.self = rv.UnsafePointer()
+	}
+	return hs.value(rv, 0)
 }
 
 type hasher struct {
 	seen []unsafe.Pointer
+	self unsafe.Pointer
+}
+
+// otherRoot: p is the object another thread was started on (its state belongs
+// to that thread's key and must not be read from here).
+//
+//go:norace
+func (hs *hasher) otherRoot(p unsafe.Pointer) (int, bool) {
+	if hs.self == nil || p == hs.self {
+		return 0, false
+	}
+	for i, t := range W.Threads {
+		if t.rootPtr != nil && t.rootPtr == p {
+			return i, true
+		}
+	}
+	return 0, false
 }
 
 //go:norace
@@ -85,6 +106,9 @@ func (hs *hasher) value(v reflect.Value, depth int) uint64 {
 		return 12
 	}
 	t := v.Type()
+	if t.PkgPath() == "sync/atomic" {
+		return 16 // atomics are shared by design; their value is not thread state
+	}
 	if t == timeType {
 		// only exported-path times can be read through Interface; use the
 		// unexported-safe route: wall/ext are not needed, compute through a copy
@@ -119,7 +143,7 @@ func (hs *hasher) value(v reflect.Value, depth int) uint64 {
 			return 27
 		}
 		p := v.UnsafePointer()
-		if s, ok := W.chans[p]; ok {
+		if s, ok := W.chanByPtr(p); ok {
 			return Mix(28, s.ID)
 		}
 		return 29
@@ -130,6 +154,9 @@ func (hs *hasher) value(v reflect.Value, depth int) uint64 {
 			return 31
 		}
 		p := v.UnsafePointer()
+		if _, other := hs.otherRoot(p); other {
+			return 44
+		}
 		for i, q := range hs.seen {
 			if q == p {
 				return Mix(32, uint64(i))
